@@ -1,15 +1,16 @@
 #!/bin/sh
 # Runs the repository's test suite with the verif guard OFF (no build tags) and compares with BASELINE.json:
 # every test in stable_pass must pass.
+mkdir -p /verif/.work
 cd /repo
 export GOFLAGS=-mod=mod GOPROXY=off GOSUMDB=off GOTOOLCHAIN=local
-go test -json -vet=off -count=1 -timeout 25m ./... > /tmp/verif_baseline_off.json 2>/dev/null
+go test -json -vet=off -count=1 -timeout 25m ./... > /verif/.work/baseline_off.json 2>/dev/null
 python3 - <<'PY'
 import json,sys
 base=json.load(open('/root/.vp/BASELINE.json'))
 want=set(base['stable_pass'])
 passed=set()
-for l in open('/tmp/verif_baseline_off.json',errors='replace'):
+for l in open('/verif/.work/baseline_off.json',errors='replace'):
     try: e=json.loads(l)
     except Exception: continue
     if e.get('Action')=='pass' and e.get('Test'):
